@@ -14,20 +14,19 @@ MANIFEST = {
                   'g = floor(L/res) >= 1, the in-function asserts follow from the positions contract, np.digitize on linspace(0,1,g+1)[1:] '
                   'equals floor(x*g) in [0,g), every cell of the volume equals Count(samples binned there) with all fancy-assignment indices '
                   'in range, voxel edge res <= L/g < 2res, and the voxel->frac->voxel round trip is the identity both in real arithmetic and '
-                  'under the standard floating-point error model. Total sum = frames x atoms is bounded only (partition lemma not built).',
+                  'under the standard floating-point error model. Total sum = frames x atoms follows from the cell-by-cell count clause by the L-partition lemma (two nested inductions, unit C08.partition).',
     'level_note': 'Trusted: numpy contracts (linspace, digitize, unique(axis=0,return_counts), fancy assignment, reshape as an abstract C-order '
                   'bijection, astype(int) truncation), the Trajectory.positions contract (proved in C01), pymatgen Lattice.lengths, standard '
                   'model fl(x op y)=(x op y)(1+d), |d|<=2^-53 for the FP round-trip obligation, pyvc itself.',
     'technique': 'deductive: VCs from the real AST of trajectory_to_volume and the Volume voxel methods, z3 (NIRA); finite-scope counter-models '
                  'replayed natively; exhaustive voxel round trip and random-trajectory oracle as bounded stand-ins',
 }
-UNITS = ['unit_volume', 'unit_voxel_size', 'unit_roundtrip', 'unit_roundtrip_fp']
+UNITS = ['unit_volume', 'unit_voxel_size', 'unit_roundtrip', 'unit_roundtrip_fp', 'unit_partition']
 BOUNDED = ['bounded_roundtrip', 'bounded_volume']
 META = {
-    'clauses': {'C08.n': 'P', 'C08.edge': 'P', 'C08.bin': 'P', 'C08.count': 'P (cell = Count over the digitised samples; total = T*N is B)',
+    'clauses': {'C08.n': 'P', 'C08.edge': 'P', 'C08.bin': 'P', 'C08.count': 'P (cell = Count over the digitised samples; total = T*N by the L-partition lemma)',
                 'C08.pre': 'P (asserts discharged from the positions contract)', 'C08.rt.real': 'P', 'C08.rt.fp': 'P under the standard FP model'},
-    'not_decided': ['sum of all voxels = frames x atoms (L-partition induction lemma not built): bounded stand-in',
-                    'np.digitize on float bin edges k*(1/g) versus floor(x*g) within one ulp of an edge (A-REAL): measured by the stand-in only'],
+    'not_decided': ['np.digitize on float bin edges k*(1/g) versus floor(x*g) within one ulp of an edge (A-REAL): measured by the stand-in only'],
 }
 
 
@@ -263,6 +262,14 @@ def unit_roundtrip_fp(tier):
 
 
 # ---------------------------------------------------------------------------------------------------------------
+
+def unit_partition(tier):
+    """sum of all voxels = frames x atoms (voxels = bins, (frame, atom) pairs = samples): spec-level lemma over the proved cell-by-cell count postcondition."""
+    from verif.props.common import partition_lemmas
+    u = Unit('C08.partition')
+    partition_lemmas(u, 'C08', 'sum of all voxels = frames x atoms (voxels = bins, (frame, atom) pairs = samples)')
+    return u
+
 
 def replay_roundtrip(inputs):
     import numpy as np
